@@ -167,7 +167,7 @@ def observe_C01_obj(w):
 def judge_expect_frames(w, prop):
     """C02 / C16: w["expect"] = frames (hex, un-stuffed) that must be delivered valid, in order; w["exact"]: nothing else may be returned."""
     try:
-        _, frames = hdlc_run(w["cfg"], w["chunks"])
+        frames = hdlc_run_twin(w["cfg"], w["chunks"], w["twin"]) if w.get("twin") else hdlc_run(w["cfg"], w["chunks"])[1]
         got = [(H(f.as_bytes), bool(f.is_valid), H(f.payload)) for f in frames]
     except Exception as e:
         return {"signature": "exception:" + exc_signature(e), "detail": repr(e)}
